@@ -3,6 +3,7 @@ package ops
 import (
 	"fmt"
 	"strings"
+	"time"
 
 	"gorm.io/gorm"
 
@@ -197,6 +198,11 @@ func RunMulti(o env.Options, fs []*Fault, action HookAction, do func(e *env.Env)
 		sr.Res = do(e)
 	}()
 	sr.InUse = e.Pool.Stats().InUse
+	for i := 0; sr.InUse != 0 && i < 400; i++ {
+		// database/sql's context watcher releases a cancelled transaction's connection asynchronously
+		time.Sleep(500 * time.Microsecond)
+		sr.InUse = e.Pool.Stats().InUse
+	}
 	sr.Events = e.Drv.Events()
 	sr.Open = simdrv.CountOpen(sr.Events)
 	sr.ClockN = e.Clock.Calls()
@@ -209,6 +215,9 @@ func RunMulti(o env.Options, fs []*Fault, action HookAction, do func(e *env.Env)
 func (sr *SingleRun) TraceHashParts() []string {
 	var parts []string
 	for _, ev := range sr.Events {
+		if ev.Task < 0 {
+			continue // asynchronous goroutines (database/sql watchers): not part of the ordered trace
+		}
 		parts = append(parts, ev.Kind+" "+ev.SQL+" "+strings.Join(ev.Args, ",")+" "+ev.Fault+" "+fmt.Sprint(ev.Err != ""))
 	}
 	for _, h := range sr.Hooks {
